@@ -32,13 +32,12 @@ def showPairs {α} (f : α → String) (l : List (Nat × α)) : String :=
   let sorted := l.foldl (fun acc x => (acc.filter (·.1 ≤ x.1)) ++ [x] ++ (acc.filter (·.1 > x.1))) []
   joinWith "," (sorted.map fun e => toString e.1 ++ "=" ++ f e.2)
 
-def showAcks (acks : List Ack) : String :=
+def showAcks (prev : Nat) (acks : List Ack) : String :=
   match acks with
   | [] => "[]"
   | a :: _ =>
-    let last := (acks.getLast?.map (·.id)).getD a.id
-    let contiguous := acks.map (·.id) == List.range' a.id acks.length
-    "[ids=" ++ toString a.id ++ "-" ++ toString last ++ (if contiguous then "" else "!gap") ++
+    let contiguous := acks.map (·.id) == List.range' (prev + 1) acks.length
+    "[ids=" ++ (if contiguous then "ok" else toString a.id ++ "!gap-after-" ++ toString prev) ++
     " up=[" ++ showPairs toString (acks.flatMap (·.upAnn)) ++ "] id=[" ++ showPairs toString (acks.flatMap (·.idAnn)) ++
     "] res=[" ++ joinWith "," ((acks.flatMap (·.results)).map fun r => toString r.1 ++ ":" ++ toString r.2) ++ "]]"
 
@@ -52,7 +51,7 @@ def readN : Nat → St → List String → St × List String
   | n + 1, s, acc => let (s', o) := read s; readN n s' (acc ++ [showRead o])
 
 def newAcks (d : D) (s : St) : D × String :=
-  ({ d with s := s, nAcks := s.acks.length }, showAcks (s.acks.drop d.nAcks))
+  ({ d with s := s, nAcks := s.acks.length }, showAcks (((s.acks.take d.nAcks).getLast?.map (·.id)).getD 0) (s.acks.drop d.nAcks))
 
 def step (d : D) (line : String) : D × String :=
   match words line with
@@ -71,6 +70,7 @@ def step (d : D) (line : String) : D × String :=
       | (s', some (n, r)) => ({ d with s := s' }, "meta " ++ toString n ++ " " ++ toString r ++ " ack=" ++ toString r)
       | (s', none) => ({ d with s := s' }, "empty"))
   | ["kill"] => (d, "resumed alias=same")
+  | ["killconflict"] => (d, "resumed alias=same")
   | ["close"] =>
     let s1 := close d.s
     let (d', a) := newAcks d s1
